@@ -1961,9 +1961,17 @@ class UserSpaceImpl(*_user_space_impl_base):
         """Clear values calculated from the references by attribute access"""
         for ref in self.own_refs.values():
             self.model.clear_attr_referrers(ref)
+        for cells in self.cells.values():
+            if not cells.is_cached:
+                # Values calculated through uncached cells
+                self.model.clear_obj(cells)
         if recursive:
             for space in self.named_spaces.values():
                 space.clear_refs_referrers(recursive)
+        # Global references are also accessible as attributes of spaces
+        for name, ref in self.model.global_refs.items():
+            if name != "__builtins__":
+                self.model.clear_attr_referrers(ref)
 
     def on_rename(self, name):
         self.model.clear_obj(self)
